@@ -31,7 +31,8 @@ def _piece_form(dom, i):
 
 
 MULTILINE = ["L1\n${q0}\nL2", "L1\n${q0}\n${q9}\nL2", "\n${q0}\n", "L1\n  ${q0}  \nL2", "L1\n${q0}", "${q0}\nL2", "L1\n\n${q0}\n\nL2", "L1\n\t${q0}\n\tL2",
-             "L1 \n ${q0} \n L2 ${q9}\n", "line one\nline two\nline three", "${q0}\n${q9}", "a\r\n${q0}\r\nb"]
+             "L1 \n ${q0} \n L2 ${q9}\n", "line one\nline two\nline three", "${q0}\n${q9}", "a\r\n${q0}\r\nb",
+             "para one\n\npara two", "para one\n \npara two ${q0}", "x\u2028y", "x\u0085y ${q0}", "x\u2029\u2029y"]
 
 
 def _multiline_form(t):
